@@ -18,13 +18,14 @@ Script (JSON, also the replay format; every random choice is in it):
                "api": {"table": [[key,min,max]..] | null (pre-0.10 broker), "old_mode": "close"|"ignore", "error": code}},
    "client": {"timeout": ms, "enable_protocol_version_discovery": bool},
    "producer": {Producer kwargs, "partitioner": "rr" | "hashed"},
+   "producers": [{Producer kwargs}, ..],   # optional: FURTHER producers sharing the same client (send step: "producer": 1, 2, ..)
    "warm": bool,                       # load the metadata of all topics before the first step
    "steps": [{"at": t, "do": ...}], "until": T, "final_fetch": bool}
 steps:  send {sid, topic, key: hex|null, n, size}  refresh {topics}  grow {topic, add, leaders, order}
         reorder {topic, order}  move_leader {topic, partition, new, old}  kill_broker/start_broker {node_id}
         restart_broker / remove_from_metadata / restore_to_metadata {node_id}
         inject {action, api, ...}  clear_faults  hang {nodes}  heal {nodes}  set {broker, attr, value}
-        fetch {label}
+        fetch {label, max_wait_time, min_bytes, tag}   # tag: the call asks for max_bytes = 2^20 + tag (identifies its frames)
 """
 import collections
 import random
@@ -51,6 +52,7 @@ class XLRun(object):
         self.fetches = []  # {"label", "n", "t", "result": [(topic, partition, error, hw, [(off,key,value)] | "decode-error:..")] | failure}
         self.error = None
         self.api_states = []  # (n, repr of client._api_versions kind) at every send step (coverage only)
+        self.producers = []
 
 
 def _recording(base, run):
@@ -161,6 +163,13 @@ def run_script(script):
             kw["partitioner_class"] = _recording(HashedPartitioner if part == "hashed" else RoundRobinPartitioner, r)
             producer = afkak.Producer(client, **kw)
             r.producer = producer
+            producers = [producer]
+            for extra in script.get("producers", []):
+                kw2 = dict(extra)
+                part2 = kw2.pop("partitioner", part)
+                kw2["partitioner_class"] = _recording(HashedPartitioner if part2 == "hashed" else RoundRobinPartitioner, r)
+                producers.append(afkak.Producer(client, **kw2))
+            r.producers = producers
             if script.get("warm"):
                 d = client.load_metadata_for_topics(*[t["name"] for t in script["cluster"]["topics"]])
                 d.addErrback(lambda f: None)
@@ -174,11 +183,11 @@ def run_script(script):
                     key = None if st["key"] is None else bytes.fromhex(st["key"])
                     vals = [value_of(sid, i, st.get("size", 0)) for i in range(st["n"])]
                     cluster._seq += 1
-                    r.sends[sid] = dict(topic=st["topic"], key=key, values=vals, t=cluster.clock.seconds(), n=cluster._seq)
+                    r.sends[sid] = dict(topic=st["topic"], key=key, values=vals, t=cluster.clock.seconds(), n=cluster._seq, producer=st.get("producer", 0))
                     r.outcomes[sid] = []
                     av = client._api_versions
                     r.api_states.append((cluster._seq, "none" if av is None else "fallback" if av == 0 else "table"))
-                    d = producer.send_messages(st["topic"], key=key, msgs=vals)
+                    d = producers[st.get("producer", 0)].send_messages(st["topic"], key=key, msgs=vals)
 
                     def done(res, sid=sid):
                         cluster._seq += 1
@@ -210,7 +219,7 @@ def run_script(script):
                     kw2 = {k: v for k, v in st.items() if k not in ("at", "do")}
                     getattr(cluster, do)(**kw2)
                 elif do == "fetch":
-                    _fetch(r, C, st.get("label", "fetch"))
+                    _fetch(r, C, st.get("label", "fetch"), st.get("max_wait_time", 100), st.get("min_bytes", 1), st.get("tag", 0))
                 else:
                     raise ValueError(do)
                 cluster.settle()
@@ -237,7 +246,7 @@ def run_script(script):
     return r
 
 
-def _fetch(r, C, label):
+def _fetch(r, C, label, max_wait_time=100, min_bytes=1, tag=0):
     """fetch every partition that has a leader from offset 0 through the real client; decode everything"""
     from twisted.python.failure import Failure
 
@@ -248,9 +257,10 @@ def _fetch(r, C, label):
     for t in cluster.topics.values():
         for p in t.partitions.values():
             if p.leader != -1 and cluster.brokers[p.leader].alive:
-                payloads.append(C.FetchRequest(t.name, p.id, 0, 1 << 20))
+                payloads.append(C.FetchRequest(t.name, p.id, 0, (1 << 20) + tag))
     cluster._seq += 1
-    rec = {"label": label, "n": cluster._seq, "t": cluster.clock.seconds(), "asked": [(p.topic, p.partition) for p in payloads], "result": None}
+    rec = {"label": label, "n": cluster._seq, "t": cluster.clock.seconds(), "asked": [(p.topic, p.partition) for p in payloads], "result": None,
+           "max_wait_time": max_wait_time, "min_bytes": min_bytes, "max_bytes": (1 << 20) + tag}
     r.fetches.append(rec)
     if not payloads:
         rec["result"] = []
@@ -271,7 +281,7 @@ def _fetch(r, C, label):
         return None
 
     try:
-        d = client.send_fetch_request(payloads, fail_on_error=False, max_wait_time=100, min_bytes=1)
+        d = client.send_fetch_request(payloads, fail_on_error=False, max_wait_time=max_wait_time, min_bytes=min_bytes)
     except Exception as e:  # noqa: BLE001
         rec["result"] = ("raised", type(e).__name__)
         return
